@@ -1,10 +1,15 @@
-"""C09 — extraction never creates, modifies or links anything outside the output directory.
+"""C09 — extraction never creates, modifies, deletes or links anything outside the output directory.
 
+Proofs (coq/Props/C09.v): the name half for every string; the on-disk half for EVERY archive (file, directory,
+symbolic-link and hard-link entries, any order) and every initial state satisfying four necessary premises, on the
+model of the repaired extractor (Proofs/ConfineFacts.v: C09_extract_confined, C09_hardlinks_stay_inside).
+Correspondence (what ties that model to the code):
 (a) names: every EntryName constructor and the FHED parser against Model/Name.v (harness `codec`, gen prop C09).
 (b) crafted archives (harness `craft`: public API for hostile link targets, hand-assembled chunks for hostile
     names) extracted by the real `pna` into <sandbox>/S/out with and without --overwrite (and --keep-permission,
-    and through `experimental stdio -x`); <sandbox>/S holds canaries and an `elsewhere` directory outside `out`
-    and is snapshotted before and after.  Oracle (implementation alone): nothing outside `out` appears, changes
+    and through `experimental stdio -x`); <sandbox>/S holds canaries and an `elsewhere` directory outside `out`,
+    `out` optionally holds pre-existing files, directories and symbolic links to the outside, and S is snapshotted
+    before and after.  Oracle (implementation alone): nothing outside `out` appears, changes
     or shares an inode with something inside, and `out` is still a directory.  Model (Model/ExtractRun.v op
     `extract`): predicts the exit status of every run and the exact set of paths whose observation changed."""
 import os, random, shutil, subprocess
@@ -14,8 +19,8 @@ from vlib import cli, core
 META = {
     "level": "proof",
     "technique": "Coq theorems on a Gallina model of name sanitisation and of extract_entry over an abstract file system with symbolic-link resolution and hard-link aliasing; model tied to the code by differential execution (names: every constructor; extraction: crafted hostile archives through the real binary in a snapshotted sandbox)",
-    "level_text": "Proved in Coq (closed): every entry name consists of Normal components only (no root, `.`, `..`, empty) for every input string, and joined to the output directory it stays lexically inside; resolving a path none of whose proper ancestors is a symbolic link ends at the literal path (why the repaired ancestor check suffices); for EVERY archive of file and directory entries, any options, the model of the repaired extract_entry changes no observation outside an output directory that is not reached through a link, holds no link and shares no inode with the outside, and the output directory survives; the unrepaired code escapes in the same model with the two recorded witnesses and the repaired code refuses them. Partial: confinement for archives containing symbolic-link / hard-link entries (and output directories already holding links) is not proved; it rests on the differential runs, where the model's predicted exit status and exact set of changed paths agree with the real binary on crafted archives with every link kind (300 / 8 000 extractions) and the implementation-side oracle finds nothing outside the output directory created, modified, removed or hard-linked.",
-    "level_note": "Trusted: Coq kernel + vm_compute; extraction and the OCaml driver (sample re-evaluated in the kernel); harness craft/codec; the abstract file system is a model of the kernel's path resolution (symlink following, O_CREAT through dangling links, link(2) not following the last component), validated only through the cases run. Races with a concurrent attacker on the output directory are outside the model.",
+    "level_text": "Proved in Coq (closed): every entry name consists of Normal components only (no root, `.`, `..`, empty) for every input string, and joined to the output directory it stays lexically inside; for EVERY archive (file, directory, symbolic-link entries with any target, hard-link entries with any stored source, in any order, with or without --overwrite and the keep-permission / keep-timestamp / keep-xattr options) and every initial file system in which the output directory is not reached through a symbolic link, is tree-shaped below, shares no inode with the outside and whose inode allocator is fresh, the model of the repaired extract_entry changes no observation (kind, inode, content, mode, times, xattrs, link target) of any path outside the output directory, also when the output directory already contains symbolic links to anywhere; after the extraction no inode has a name inside and a name outside (hard links stay inside), the source handed to link(2) and every destination that passes the ancestor check resolve to their literal paths, the premises hold again afterwards and the output directory survives; each of the four premises is shown necessary by a witness, and they are decidable; the unrepaired code escapes in the same model with the two recorded witnesses and the repaired code refuses them. The model is tied to the code by differential runs: its predicted exit status and exact set of changed paths agree with the real binary on crafted archives with every entry kind, hostile names and targets, pre-existing links in the output directory (300 / 8 000 extractions), and the implementation-side oracle finds nothing outside the output directory created, modified, removed or hard-linked.",
+    "level_note": "Trusted: Coq kernel + vm_compute; extraction and the OCaml driver (sample re-evaluated in the kernel); harness craft/codec; the abstract file system is a model of the kernel's path resolution (symlink following, O_CREAT through dangling links, link(2) not following the last component), validated only through the cases run. Premises of the theorem that are a matter of the caller: the output directory is not itself a symbolic link and no file in it is already hard-linked to a file outside (both necessary: witnesses in Props/C09.v); tree shape and allocator freshness hold in every real file system. Ownership (chown takes the same path as chmod in the code), ACLs, and races with a concurrent attacker between the ancestor check and the call are outside the model.",
 }
 
 S_ABS = "/S"            # abstract name of <sandbox>/S in case lines
@@ -60,12 +65,12 @@ def fs_field(nodes):
 
 # ------------------------------------------------------------------------------------ archives
 NAMES = ["f", "d", "d/f", "d/g", "l", "l/x", "l/sub/y", "t/link", "t/link/x", "h", "sub/hl", "pre", "predir", "predir/f",
-         "predir/new", "prelink", "prelink/x", "prefl", "predang", "preabs/z", "../x", "/abs", "a/../../x", "..", "/", ".",
+         "predir/new", "prelink", "prelink/x", "prelink/sub/y", "prefl", "predang", "predang/x", "preabs/z", "preabs/sub/y", "../x", "/abs", "a/../../x", "..", "/", ".",
          "a/./b", "back\\..\\slash", "ünï/é", "with space", "-dash", "a//b/", "../../elsewhere/victim", "/S/elsewhere/x"]
 TARGETS = ["f", "d", "d/f", "../d/f", "l", "pre", "predir/f", "../elsewhere", "../../elsewhere", "../elsewhere/victim",
            "../elsewhere/nothing", "../../elsewhere/victim", "../../outside_secret", "../outside_secret", "@S/elsewhere",
            "@S/outside_secret", "@S/elsewhere/victim", "/etc", "..", ".", "./f", "nothing", "prelink/victim", "l/victim",
-           "d/../../elsewhere/victim", "../out/f", "h", ""]
+           "d/../../elsewhere/victim", "../out/f", "h", "", "prefl", "predang", "preabs/victim", "preabs/sub/../victim"]
 PERMS = [None, None, None, 0o777, 0o700, 0o4755, 0o600, 0o000 | 0o500]
 
 # curated histories: (entries, flags, runs, pre sets, stdio) — the escapes found on the unrepaired code first
@@ -100,6 +105,15 @@ CURATED = [
     ([("a", 2, "l", "../elsewhere", None), ("a", 0, "l/x", "1", None), ("a", 0, "later", "2", None), ("a", 3, "h", "later", None)], 0, 1, [], False),
     ([("a", 0, "pre", "new", 0o600), ("a", 0, "predir/f", "new", None), ("a", 2, "predir", "../elsewhere", None)], 3, 1, [0, 1], False),
     ([("a", 0, "pre", "new", 0o600), ("a", 0, "predir/new", "new", None)], 2, 1, [0, 1], False),
+    # pre-existing links in the output directory: two levels beneath them, as hard-link sources (the link itself,
+    # a path through it), a link planted by an earlier entry as the source of a hard link beneath another one
+    ([("a", 1, "prelink/sub/y", "", 0o777)], 3, 1, [2], False), ([("a", 0, "preabs/sub/y", "pwn", None)], 1, 1, [5], True),
+    ([("a", 3, "hl", "prelink/victim", None)], 1, 1, [2], False), ([("a", 3, "hl", "preabs/victim", 0o777)], 3, 1, [5], False),
+    ([("a", 3, "hl", "prefl", 0o777)], 3, 2, [3], False), ([("a", 3, "hl", "predang", None)], 0, 1, [4], False),
+    ([("a", 3, "prelink/hl", "../pre", None)], 1, 1, [0, 2], False), ([("a", 2, "predang", "../elsewhere", 0o777)], 3, 1, [4], False),
+    ([("a", 2, "l", "../elsewhere", None), ("a", 2, "l/m", "victim", None), ("a", 3, "h", "l/victim", None)], 1, 1, [], False),
+    ([("a", 2, "l", "../elsewhere/victim", None), ("a", 3, "sub/h", "../l", 0o777), ("a", 3, "sub/h2", "h", 0o777)], 3, 2, [], False),
+    ([("a", 1, "prefl", "", 0o700), ("a", 0, "prefl/f", "x", None)], 3, 1, [3], False),
 ]
 
 
@@ -218,7 +232,8 @@ def run(tier, seed, replay=None):
     c.rule = ("names: every string over {a . / \\ space e-acute NUL} up to length 5 (6 in thorough) and generated path-like strings "
               "through 5 EntryName constructors + EntryReference; extraction: %d curated histories (every escape found on the "
               "unrepaired code) + seeded archives of 1-5 entries over hostile names x kinds x link targets x {--overwrite, "
-              "--keep-permission} x {1, 2 runs} x pre-existing links in the output directory x {extract, stdio -x}; a case is "
+              "--keep-permission} x {1, 2 runs} x pre-existing files, directories and links (to outside directories, files, nothing) in the output directory, "
+              "also two levels beneath them and as hard-link sources x {extract, stdio -x}; a case is "
               "non-trivial if distinct" % len(CURATED))
     c.assumptions = ["the output directory exists, is not itself reached through a symbolic link, and no file in it is hard-linked to a file outside it before extraction",
                      "no concurrent modification of the output directory during extraction",
